@@ -3,6 +3,7 @@ import EinxModel.Driver.Registry
 import EinxModel.Driver.Update
 import EinxModel.Driver.Notation
 import EinxModel.Driver.Solve
+import EinxModel.Driver.Cse
 import EinxModel.Driver.Cache
 import EinxModel.Driver.Concurrent
 import EinxModel.Driver.IR
@@ -27,7 +28,8 @@ def dispatch (j : Json) : R Json := do
   | "notation" => Einx.Driver.Notation.handle j
   | "cache-table" | "freeze" | "pyeq" | "pyhash" | "memo" | "stack" => Einx.Driver.Cache.handle j
   | "solve" | "checksat" | "checkaxes" => Einx.Driver.Solve.handle j
-  | "ir_run" | "validate" | "denote" => Einx.Driver.IR.handle j
+  | "value_range" => Einx.Driver.Cse.handle j
+  | "ir_run" | "validate" | "denote" | "norm_arith" => Einx.Driver.IR.handle j
   | "join_exprs" | "cse_replace" | "implicit_output" => Einx.Driver.Order.handle j
   | "adapt_check" | "split_kwargs" | "expr_to_axis" | "elementwise_shape" => Einx.Driver.Adapt.handle j
   | "compile" => Einx.Driver.Compile.handle j
